@@ -68,9 +68,10 @@ func c08Gen(r *driver.Rand, thorough bool) *driver.Plan {
 		total += n
 		senders = append(senders, elems(i, n))
 	}
-	if r.Chance(1, 150) {
-		// a backlog of hundreds of values (queue growth and shrink thresholds)
-		senders = [][]int{elems(0, driver.Pick(r, 260, 300, 600))}
+	if r.Chance(1, 100) {
+		// a backlog of hundreds of values (queue growth and shrink thresholds,
+		// chunk boundaries)
+		senders = [][]int{elems(0, driver.Pick(r, 260, 300, 600, 64, 128, 256, 512, 1024))}
 		total = len(senders[0])
 		ns = 1
 	}
@@ -152,6 +153,24 @@ func c08Enum(thorough bool) []*driver.Plan {
 				}
 			}
 		}
+	}
+	// a backlog of tens of thousands of values behind a receiver that shows up
+	// a minute later (a run of this size costs seconds, hence a fixed handful
+	// rather than a random share)
+	hugeCaps := []int{0, 8, 1}
+	if thorough {
+		hugeCaps = []int{0, 1, 8, 64}
+	}
+	for i, cap := range hugeCaps {
+		p := c08Plan(cap, [][]int{elems(0, 66000+1500*i)}, 1)
+		p.Policy, p.Budget = driver.PolRunBlock, 200
+		if i%2 == 0 {
+			p.Consumers[0].Abandon = 0 // a receiver that never receives: every send completes all the same
+		} else {
+			p.Consumers[0].StartMs = 61000
+		}
+		p.SetX("step_cap_x", 16)
+		out = append(out, p)
 	}
 	return out
 }
